@@ -14,14 +14,25 @@ ENV = dict(os.environ, CARGO_NET_OFFLINE="true", RUST_BACKTRACE="0", CARGO_TARGE
 
 # Markers that concern only some of the properties a harness serves (longest prefix wins; default: all of the harness's).
 MARKER_PROPS = {
-    "VF:index.heap.": ["C19", "C18"],
+    "VF:index.": ["C05", "C01", "C02", "C03"],
+    "VF:index.heap.": ["C18"],
     "VF:index.heap.cost_differs_from_documented_rule": ["C19"],
     "VF:index.heap.list_cost_differs_from_documented_rule": ["C19"],
+    "VF:index.heap.vec_cost": ["C19", "C18"],
     "VF:index.clear": ["C05", "C08"],
     "VF:index.push_after_clear": ["C05", "C08"],
     "VF:index.reserve_changed_contents": ["C05", "C10"],
     "VF:index.with_capacity_not_empty": ["C05", "C10"],
+    "VF:slice.": ["C01", "C02"],
     "VF:slice.forms.": ["C20"],
+    "VF:slice_opt.": ["C01", "C02", "C03", "C05"],
+    "VF:columns.": ["C12", "C01", "C02"],
+    "VF:columns.dense_indices": ["C12", "C20"],
+    "VF:option.roundtrip": ["C01", "C02"],
+    "VF:result.roundtrip": ["C01", "C02"],
+    "VF:tuple.roundtrip": ["C01", "C02"],
+    "VF:long.read_differs_from_pushed": ["C01", "C02"],
+    "VF:long.index_differs_from_twin": ["C08", "C10", "C09"],
     "VF:columns.get.returned_out_of_bounds": ["C13"],
     "VF:collapse.": ["C11"],
     "VF:collapse.after_clear": ["C11", "C08"],
